@@ -25,6 +25,8 @@ import LianVerif.Drv.LowerPy
 import LianVerif.Drv.Frames
 import LianVerif.Drv.Sched
 import LianVerif.Drv.Taint
+import LianVerif.Drv.Fold
+import LianVerif.Drv.Aref
 
 open Lean LianVerif.Drv
 
@@ -59,6 +61,8 @@ def dispatch (j : Json) : Except String Json := do
   | "sched" => LianVerif.Drv.Sched.handle j
   | "taint" => LianVerif.Drv.Taint.handle j
   | "taintrules" => LianVerif.Drv.Taint.handleRules j
+  | "fold" => LianVerif.Drv.Fold.handle j
+  | "aref" => LianVerif.Drv.Aref.handle j
   | _ => throw s!"unknown model {m}"
 
 partial def loop (hin hout : IO.FS.Stream) : IO Unit := do
